@@ -188,6 +188,26 @@ def run(ck):
         for d in delegated:
             if d.callee_body().qual == "Signals::remove_signals" and q == "Signals::set_signals":
                 ck.violation("2", "T14-set-provenance", b, "unblock-disjoint-from-final-mask", "set_signals is implemented by removing signals through remove_signals and adding the new list: signals that stay configured are unblocked in between, so a pending instance is delivered with its default disposition instead of to the source", site=b.where(d.bb))
+    # ---- clause 2b: the thread mask is only ever changed incrementally ---------------------------------------------
+    # thread_block adds, thread_unblock removes. Installing a set as the *whole* mask (thread_set_mask / thread_swap_mask,
+    # sigprocmask/pthread_sigmask with SIG_SETMASK) also unblocks every signal some other Signals source of the thread, or
+    # the application, has blocked: "signals that are not configured ... keep their normal disposition" and the other
+    # source's "exactly the configured signals are blocked" both break.
+    nmask = 0
+    for b in f.bodies.values():
+        if not b.file.endswith("signals.rs"):
+            continue
+        for cs in b.calls():
+            if b.is_cleanup(cs.bb) or not cs.f:
+                continue
+            pth = cs.f["path"]
+            if pth in (SIG + "::thread_block", SIG + "::thread_unblock"):
+                nmask += 1
+            whole = pth in (SIG + "::thread_set_mask", SIG + "::thread_swap_mask") or (cs.name in ("sigprocmask", "pthread_sigmask") and any("SETMASK" in T.const_name(b, a) or any(v[1] == "SIG_SETMASK" for v in T.agg_variant(b, a)) for a in cs.args))
+            if whole:
+                ck.violation("2", "T7-who-may-call", b, "whole-mask-install:" + cs.name, "%s replaces the thread's entire signal mask: every signal blocked by another Signals source of this thread (or by the application) is unblocked, and is then delivered with its default disposition instead of to its source" % cs.name, site=b.where(cs.bb))
+    ck.floor("2", "incremental thread-mask calls (thread_block / thread_unblock) in signals.rs", nmask, 3)
+
     # ---- clause 3: new / Drop ----------------------------------------------------------------------------------
     nw = ck.body("3", "Signals::new")
     tb = sigcalls(nw, "thread_block")
